@@ -1140,6 +1140,31 @@ func solveCover(c *Obligation, outDir string) SolveResult {
 	return r
 }
 
+// dropQuantifiedHyps removes every assertion that contains a quantifier except the last one
+// (the negated goal). Returns "" if nothing was dropped.
+func dropQuantifiedHyps(q string) string {
+	lines := strings.Split(q, "\n")
+	last := -1
+	for i, l := range lines {
+		if strings.HasPrefix(l, "(assert") {
+			last = i
+		}
+	}
+	var out []string
+	dropped := false
+	for i, l := range lines {
+		if i != last && strings.HasPrefix(l, "(assert") && (strings.Contains(l, "(forall ") || strings.Contains(l, "(exists ")) {
+			dropped = true
+			continue
+		}
+		out = append(out, l)
+	}
+	if !dropped {
+		return ""
+	}
+	return strings.Join(out, "\n")
+}
+
 func solveObligation(o *Obligation, outDir string, timeout int) SolveResult {
 	spent := 0.0
 	// stage 1: full VC, lean instantiation (only hypotheses over the goal's own variables);
@@ -1154,6 +1179,17 @@ func solveObligation(o *Obligation, outDir string, timeout int) SolveResult {
 				r0.Solver += "/s0"
 				return r0
 			}
+		}
+	}
+	// stage 1a: the same query without the quantified hypotheses that remain after
+	// instantiation (dropping hypotheses is sound; the instances usually suffice and the
+	// ground problem is decided in milliseconds where MBQI diverges)
+	if qf := dropQuantifiedHyps(q1); qf != "" {
+		rq := solve(qf, outDir, o.Name+".s1g", 3, "z3-new")
+		spent += rq.Time
+		if rq.Status == "unsat" {
+			rq.Solver += "/s1g"
+			return rq
 		}
 	}
 	r := solve(q1, outDir, o.Name+".s1", 3, "z3,z3-new")
